@@ -181,6 +181,10 @@ func (l *kvsLock) lockWithCtx(ctx context.Context) error {
 		if errors.Is(err, errors.ErrExist) {
 			_ = l.dlp.Storage.WaitForVersionChange(ctx, l.key, ver)
 			err = ctx.Err()
+			if err == nil && !chans.IsOpened(l.dlp.done) {
+				// shut down while waiting for the lock: nobody acquires after Shutdown()
+				err = fmt.Errorf("kvsLock.lockWithCtx(): locking mechanism is shutdown: %w", errors.ErrClosed)
+			}
 		}
 	}
 
